@@ -160,3 +160,108 @@ Definition blanket_transform {Err Res} (check_ref : option Err) (checked_transfo
 (* `check(self)`: `self.check_ref()?; Ok(self.0)` - same verdict, parameters returned as they are *)
 Definition check_by_value {Err P} (check_ref : P -> option Err) (p : P) : Err + P :=
   match check_ref p with Some e => inl e | None => inr p end.
+
+(** * Entry points: every `impl Fit / FitWith / Transformer / PredictInplace / Predict ... for T` and every
+      method with a `self` receiver of a type that has a ParamGuard impl, as read from the sources by the
+      translator (gen/C04_guards.v [entry_points]).
+
+    class of the receiver:
+      [EpUnchecked]  a type with an `impl ParamGuard` (the builder before checking);
+      [EpChecked]    the `Checked` type of some ParamGuard impl (or a type alias of it);
+      [EpBlanket]    the type variable `P` of the three generic impls of src/param_guard.rs;
+      [EpOther]      anything else (fitted models, scalers, parameter types without a guard, test doubles).
+
+    The body of every method of an [EpUnchecked] / [EpBlanket] receiver is translated to an [ep_shape]:
+      [EpTry m a]      `self.check_ref()?.m(args)`  or  `let c = self.check_ref()?; c.m(args)`
+      [EpMap m a]      `self.check_ref().map(|c| c.m(args))`
+      [EpAndThen m a]  `self.check_ref().and_then(|c| c.m(args))`
+      [EpGetter]       `&self.0.field` / `self.0.field` / `self.0.field.clone()` (reads a value, runs nothing)
+      [EpOpaque body]  anything else (the text is kept so that the report can show it)
+    [a] is true when `args` are exactly the method's own parameters, in order. *)
+Inductive ep_class := EpUnchecked | EpChecked | EpBlanket | EpOther.
+Inductive ep_shape :=
+| EpTry (m : string) (same_args : bool)
+| EpMap (m : string) (same_args : bool)
+| EpAndThen (m : string) (same_args : bool)
+| EpGetter
+| EpOpaque (body : string).
+
+Record entry_point := {
+  ep_file : string;
+  ep_trait : string;             (* "" for an inherent impl block *)
+  ep_recv : string;              (* receiver type name (type aliases resolved, macro names normalised) *)
+  ep_cls : ep_class;
+  ep_builder : string;           (* EpUnchecked: the receiver; EpChecked: the builder it is the Checked type of; else "" *)
+  ep_records : string;           (* trait impl: first type argument of the trait; inherent: type of the first parameter *)
+  ep_fns : list (string * ep_shape)   (* methods with a self receiver; bodies translated for EpUnchecked / EpBlanket *)
+}.
+
+Definition ep_class_eqb (a b : ep_class) : bool :=
+  match a, b with
+  | EpUnchecked, EpUnchecked | EpChecked, EpChecked | EpBlanket, EpBlanket | EpOther, EpOther => true
+  | _, _ => false
+  end.
+
+(* the meaning of the three forwarding shapes: `?` returns the (converted) error, `map` / `and_then` return
+   it as it is (E = Err, conv = identity); otherwise method [m] of the checked parameters runs on the same
+   arguments.  An opaque body has no meaning in the model. *)
+Definition ep_denote {Err Res E : Type} (s : ep_shape) (conv : Err -> E) (check_ref : option Err)
+    (checked_call : string -> unit -> Res) : option (@unchecked_result Res E) :=
+  match s with
+  | EpTry m true | EpMap m true | EpAndThen m true =>
+      Some (match check_ref with
+            | Some e => UGuardErr (conv e)
+            | None => UDelegated (checked_call m tt)
+            end)
+  | _ => None
+  end.
+
+(* the method a forwarding shape delegates to *)
+Definition ep_target (s : ep_shape) : option string :=
+  match s with
+  | EpTry m true | EpMap m true | EpAndThen m true => Some m
+  | _ => None
+  end.
+
+(* a method of an unchecked receiver is fine when it forwards (a trait method: to the method of the same
+   name) or only reads a field *)
+Definition ep_fn_ok (is_trait : bool) (f : string * ep_shape) : bool :=
+  match snd f with
+  | EpGetter => negb is_trait
+  | s => match ep_target s with
+         | Some m => negb is_trait || String.eqb m (fst f)
+         | None => false
+         end
+  end.
+
+Definition ep_guarded (e : entry_point) : bool :=
+  match ep_cls e with
+  | EpUnchecked | EpBlanket => forallb (ep_fn_ok (negb (String.eqb (ep_trait e) ""))) (ep_fns e)
+  | _ => true
+  end.
+
+(* the key under which the harness reports a call of an entry point *)
+Definition ep_key (m records : string) : string := m ++ ":" ++ records.
+
+(** * Parameter records as data: fields with setters, float leaves with getters (gen/C04_fields.v) *)
+Record field_desc (P : Type) := {
+  fd_name : string;
+  fd_rust_type : string;
+  fd_numeric : bool;             (* the type contains a float or an unsigned integer *)
+  fd_ty : Type;
+  fd_set : fd_ty -> P -> P;
+  fd_dec : pval -> fd_ty         (* from the transport form (Spec.v writes witness values in it) *)
+}.
+Arguments fd_name {P}. Arguments fd_rust_type {P}. Arguments fd_numeric {P}.
+Arguments fd_ty {P}. Arguments fd_set {P}. Arguments fd_dec {P}.
+
+Record guard_pack := {
+  gp_builder : string;
+  gp_P : Type;
+  gp_guard : fmt -> gp_P -> option gerr;
+  gp_of_env : env -> gp_P;
+  gp_fields : list (field_desc gp_P);                       (* every translated field of the checked struct *)
+  gp_leaves : list (string * (gp_P -> list spec_float));    (* every float inside those fields, by path *)
+  gp_untranslated : list (string * string);                 (* fields whose type is outside the subset: (name, type) *)
+  gp_reads : list string                                    (* fields the body of check_ref mentions (syntactic) *)
+}.
